@@ -26,6 +26,10 @@ def _job(args):
     return fw_act.run_pack(kind, hs, runtime)
 
 
+# renderings: literal arguments / run-time arguments through variables / queries through a helper defined first / sensor reads in the argument position
+RNAME = {False: "lit", True: "rt", "fnq": "fnq", "rti": "rti"}
+
+
 def host_valid(dev: str, h) -> bool:
     """True when the host accepts every call of the history (no invalid scalar argument)."""
     return all(e["res"] != "raise" for e in HOST[dev](h))
@@ -34,7 +38,7 @@ def host_valid(dev: str, h) -> bool:
 def run_device(dev: str, hs: list, run, label: str) -> None:
     ensure = fw.ensure_runtime(False)  # noqa: F841  (build once in the parent)
     jobs = []
-    for runtime in (False, True):
+    for runtime in (False, True, "fnq", "rti"):
         for i in range(0, len(hs), PACK):
             jobs.append((dev, hs[i:i + PACK], runtime, i))
     with cf.ProcessPoolExecutor(max_workers=NCPU) as ex:
@@ -50,7 +54,7 @@ def run_device(dev: str, hs: list, run, label: str) -> None:
 
     def take(kind, part, runtime, base, r):
         for k, h in enumerate(part):
-            tid = f"{dev}-{base + k}-{'rt' if runtime else 'lit'}"
+            tid = f"{dev}-{base + k}-{RNAME[runtime]}"
             run.count(tid)
             tr = r["traces"][k]
             if tr is None:
@@ -71,7 +75,7 @@ def run_device(dev: str, hs: list, run, label: str) -> None:
             take(kind, part, runtime, base, r)
             continue
         h = part[0]
-        tid = f"{dev}-{base}-{'rt' if runtime else 'lit'}"
+        tid = f"{dev}-{base}-{RNAME[runtime]}"
         run.count(tid)
         if r["transpile"] == "reject" and not host_valid(dev, h):
             run.cov["rejected_invalid_histories"] = run.cov.get("rejected_invalid_histories", 0) + 1
@@ -91,7 +95,7 @@ def run_device(dev: str, hs: list, run, label: str) -> None:
             h, runtime, src, inputs = meta[tid]
             ev = next(t for t in traces if t["id"] == tid)["ev"]
             run.violation(f"{dev}: firmware leaves the specification at call {v['l'] - 1} ({v['clause']}), "
-                          f"{'run-time' if runtime else 'literal'} arguments: {json.dumps(ev[v['l'] - 1])[:260]}",
+                          f"{RNAME[runtime]} rendering: {json.dumps(ev[v['l'] - 1])[:260]}",
                           {"device": dev, "history": h, "runtime": runtime, "verdict": v, "script": src, "inputs": inputs, "trace": ev})
 
 
